@@ -196,6 +196,7 @@ int main()
 			if (f == "sq") hist_dispatch<Fn::sqrt>(l, is); else hist_dispatch<Fn::cnst>(l, is);
 		}
 		else puts("?");
+		fflush(stdout);   // a crash (momo assertion, memory error) must not lose the lines already produced
 	}
 	return 0;
 }
